@@ -679,6 +679,26 @@ theorem classX_example :
     ∧ classBehaviour noRe c₁ [("a", .float ⟨1, 2⟩), ("b", .str "x")] = .error .valueErr :=
   ⟨ClassSameX.cons ⟨rfl, rfl⟩ (ClassSameX.cons ⟨rfl, rfl⟩ ClassSameX.nil), rfl, rfl, rfl, rfl, rfl, rfl⟩
 
+/-- typing's de-duplication at non-adjacent positions and across bracketings, kernel-checked on the model (no general
+    theorem: `dedupObj` keeps the FIRST of each group of `==` members): `Union[int, str, int]` and `int | str | int` are
+    `Union[int, str]`; `Union[int, Union[str, int]]` as well; `Union[int, Optional[int]]` is `Optional[int]`;
+    `Union[list[int], List[int]]` keeps both (a PEP 585 alias and a typing alias are different objects), and
+    `Union[Integer(), Integer()]` keeps both Field instances. -/
+theorem dedup_examples :
+    elabField noRe tm false (annF (.union (.union (.builtin .int) (.builtin .str)) (.builtin .int)))
+        = elabField noRe tm false (annF (.union (.builtin .int) (.builtin .str)))
+    ∧ elabField noRe tm false (annF (.pipe (.pipe (.builtin .int) (.builtin .str)) (.builtin .int)))
+        = elabField noRe tm false (annF (.union (.builtin .int) (.builtin .str)))
+    ∧ elabField noRe tm false (annF (.union (.builtin .int) (.union (.builtin .str) (.builtin .int))))
+        = elabField noRe tm false (annF (.union (.builtin .int) (.builtin .str)))
+    ∧ elabField noRe tm false (annF (.union (.builtin .int) (.optional (.builtin .int))))
+        = elabField noRe tm false (annF (.optional (.builtin .int)))
+    ∧ elabField noRe tm false (annF (.union (.pep585 .list (.builtin .int)) (.typingG .list (.builtin .int))))
+        = .ok (.field (.anyOf [.seqOf .list (.integer {}) {}, .seqOf .list (.integer {}) {}]) true none)
+    ∧ elabField noRe tm false (annF (.union (.finst .int) (.finst .int)))
+        = .ok (.field (.anyOf [.integer {}, .integer {}]) true none) :=
+  ⟨rfl, rfl, rfl, rfl, rfl, rfl⟩
+
 /-! ### Structure classes as field types, two-element tuples -/
 
 /-- the Structure class `class Owner(Structure): name: str` -/
